@@ -95,7 +95,7 @@ def markupLineStep (e : Env) (r : Rec) (ctx : Ctx) (doc : Doc) (l : MLine) : M D
 
 /-- `convert_markup_impl`. -/
 def convMarkup (e : Env) (r : Rec) (ctx : Ctx) (n : ANode) (scope : Scope) : M Doc := do
-  tick
+  enter .markup n.attrs.id
   let ctx := ctx.withMode .markup
   if isOnlyOneAnd n.children (·.kind == .space) then return space
   let repr := collectMarkupRepr n.children
